@@ -635,19 +635,27 @@ class Module(_ModuleBuilderRoot, Elaboratable):
             if not isinstance(stmt, _LateBoundStatement):
                 lhs_masks.visit_stmt(stmt)
 
+            # Check the whole statement before recording any of it: a statement that is refused must
+            # leave the bits it would have been allowed to drive free for their rightful driver.
+            for sig, mask in lhs_masks.masks():
+                sig_domain = self._driving.get(sig)
+                if sig_domain is None:
+                    continue
+                for bit in range(len(sig)):
+                    if not (mask & (1 << bit)):
+                        continue
+                    if sig_domain[bit] is not None and sig_domain[bit] != domain:
+                        raise SyntaxError(
+                            f"Driver-driver conflict: trying to drive {sig!r} bit {bit} from d.{domain}, but it is "
+                            f"already driven from d.{sig_domain[bit]}")
+
             for sig, mask in lhs_masks.masks():
                 if sig not in self._driving:
                     self._driving[sig] = [None] * len(sig)
                 sig_domain = self._driving[sig]
                 for bit in range(len(sig)):
-                    if not (mask & (1 << bit)):
-                        continue
-                    if sig_domain[bit] is None:
+                    if mask & (1 << bit):
                         sig_domain[bit] = domain
-                    if sig_domain[bit] != domain:
-                        raise SyntaxError(
-                            f"Driver-driver conflict: trying to drive {sig!r} bit {bit} from d.{domain}, but it is "
-                            f"already driven from d.{sig_domain[bit]}")
 
             self._statements.setdefault(domain, []).append(stmt)
 
